@@ -1875,7 +1875,8 @@ where
             for p in &node.order {
                 out[*p] = Some(lv.clone());
             }
-            *remain -= node.order.len();
+            // a duplicate key in the document reaches the same tree node again: do not count its paths twice
+            *remain = remain.saturating_sub(node.order.len());
         }
         Ok(())
     }
